@@ -68,7 +68,7 @@ def gen(rng, tier, focus):
         for oi, opts in enumerate(optset):
             h = "%s_o%d" % (ds.did, oi)
             lines.append("SQLOPEN %s %s %s" % (h, ds.did, opts))
-            for qn in range(max(4, nq // len(optset))):
+            for qn in range(max(6, nq // len(optset))):
                 txt, t, gb = query_text(rng, ds)
                 if i == 0 and qn == 0:
                     txt, t, gb = b'a = "zzz" ; c, b', ("E", b"a", b"zzz", 0), [b"c", b"b"]       # grouped, no matching group
@@ -84,6 +84,18 @@ def gen(rng, tier, focus):
                     argsets.append([rng.choice(ARG_POOL) for _ in range(n)])
                 if i == 0 and qn == 1:
                     mode, argsets = "direct", [[("S", b"1")]]
+                if qn == 4:                 # the same plain texts on every file and every option set
+                    c0 = sorted(c for c in ds.values() if c.isalpha())[:1] or [b"a"]
+                    txt, t, gb, m = c0[0] + b' = "1" | ' + c0[0] + b' = "x"', ("O", [("E", c0[0], b"1", 0), ("E", c0[0], b"x", 0)]), [], 0
+                    mode, argsets = "direct", [[], []]
+                if qn == 5:                 # a placeholder under NOT, prepared, executed with different arguments
+                    c0 = sorted(c for c in ds.values() if c.isalpha())[:2] or [b"a"]
+                    c1 = c0[-1]
+                    txt = b"^ " + c0[0] + b" = $1 & " + c1 + b" = $2 ; " + c0[0]
+                    t, gb, m = ("A", [("N", ("E", c0[0], b"", 1)), ("E", c1, b"", 2)]), [c0[0]], 2
+                    vals = sorted(set(v for c in c0 for v in ds.values().get(c, []) if all(x < 128 for x in v)))[:4] or [b"1"]
+                    mode = "prepared"
+                    argsets = [[("S", rng.choice(vals)), ("S", rng.choice(vals))] for _ in range(4)]
                 if i == 0 and qn == 2:      # negative integers, on every path
                     txt, t, gb, m = b"a = $1 ; b", ("E", b"a", b"", 1), [b"b"], 1
                     argsets = [[("I", -3)], [("I", 0)], [("I", -3)]]
